@@ -466,7 +466,7 @@ def z5_ir(prog, rep, wanted):
         for m in re.finditer(r"^define [^@]*@(\w+)\(.*?\{\n(.*?)^\}", ll, re.M | re.S):
             bodies[m.group(1)] = m.group(2)
         for fn, lens in sorted(funcs.items()):
-            body = bodies.get(fn)
+            body = bodies.get(fn) or bodies.get("libcperciva_" + fn)
             if body is None:
                 # inlined into its callers and dropped (static): look at callers instead is not needed for public API
                 rep.unknown("Z5-O2", fn, up, "function has no out-of-line body at -O2 (static, inlined)")
